@@ -159,9 +159,15 @@ def fix_descr_names(obs, v):
 
 # ---------------------------------------------------------------------------------------------- child
 
-def definer_main(famdir, plan, rd, wr, lockstep, bytecode, equal_clock, vmap):
+def definer_main(famdir, plan, rd, wr, lockstep, bytecode, equal_clock, vmap, claim_pid=None):
     """plan: list of variant ids defined one after the other in THIS process"""
     cache = os.path.join(famdir, "__pkts__")
+    if claim_pid is not None and os.path.isdir(cache):
+        # the operating system hands the process id of a dead definer to this process: whatever file the dead one named
+        # after its pid now carries OUR pid
+        for fn in os.listdir(cache):
+            if str(claim_pid) in fn:
+                os.rename(os.path.join(cache, fn), os.path.join(cache, fn.replace(str(claim_pid), str(os.getpid()))))
     os.chdir(famdir)
     sys.path.insert(0, famdir)
     sys.dont_write_bytecode = not bytecode
@@ -228,6 +234,25 @@ def definer_main(famdir, plan, rd, wr, lockstep, bytecode, equal_clock, vmap):
                 return W(real_open(file, mode, *a, **k))
             return real_open(file, mode, *a, **k)
         builtins.open = io.open = open_
+        # the same file opened through os.open + os.fdopen
+        real_os_open, real_fdopen = os.open, os.fdopen
+        cache_fds = set()
+
+        def os_open(path, flags, *a, **k):
+            if mine(path) and flags & (os.O_WRONLY | os.O_RDWR | os.O_CREAT | os.O_APPEND | os.O_TRUNC):
+                step("open(os) %s" % os.path.basename(os.fspath(path)))
+                fd = real_os_open(path, flags, *a, **k)
+                cache_fds.add(fd)
+                return fd
+            return real_os_open(path, flags, *a, **k)
+
+        def fdopen(fd, *a, **k):
+            f = real_fdopen(fd, *a, **k)
+            if fd in cache_fds:
+                cache_fds.discard(fd)
+                return W(f)
+            return f
+        os.open, os.fdopen = os_open, fdopen
         for name in ("stat", "remove", "unlink", "replace", "rename", "makedirs"):
             real = getattr(os, name)
 
@@ -271,14 +296,14 @@ def definer_main(famdir, plan, rd, wr, lockstep, bytecode, equal_clock, vmap):
 # ---------------------------------------------------------------------------------------------- parent
 
 class Definer:
-    def __init__(self, famdir, plan, vmap, lockstep=False, bytecode=False, equal_clock=False):
+    def __init__(self, famdir, plan, vmap, lockstep=False, bytecode=False, equal_clock=False, claim_pid=None):
         r1, w1 = os.pipe()
         r2, w2 = os.pipe()
         self.pid = os.fork()
         if self.pid == 0:
             try:
                 os.close(w1); os.close(r2)
-                definer_main(famdir, plan, r1, w2, lockstep, bytecode, equal_clock, vmap)
+                definer_main(famdir, plan, r1, w2, lockstep, bytecode, equal_clock, vmap, claim_pid)
             except BaseException:
                 traceback.print_exc()
             finally:
